@@ -625,3 +625,42 @@ def run_check(prop, tier, rule_fn, meta):
         prop, len(ctx.rules), total, len(known_hit), len(new_viol),
         ", INCOMPLETE" if ctx.incomplete else ""))
     return rc
+
+
+# --------------------------------------------------------------------------
+# resolver for helper functions that did not exist when the rules were written
+# --------------------------------------------------------------------------
+
+_KNOWN_FNS = None
+
+
+def known_fns():
+    global _KNOWN_FNS
+    if _KNOWN_FNS is None:
+        p = os.path.join(VERIF, "spec", "known_fns.json")
+        _KNOWN_FNS = json.load(open(p))["files"] if os.path.exists(p) else {}
+    return _KNOWN_FNS
+
+
+def new_fn_resolver(facts, files, cfg=None):
+    """resolver(name) -> fn node for a *free function* of `files` that is not in spec/known_fns.json (a helper extracted after the
+    rules were written); None for everything else"""
+    table = {}
+    for file in files:
+        known = set(known_fns().get(file, []))
+        for fi in facts.fns(file):
+            if fi.in_test or fi.impl_self is not None or fi.name in known:
+                continue
+            if cfg is not None and not all(cfg(c) for c in fi.cfg):
+                continue
+            table.setdefault(fi.name, fi.node)
+
+    def resolve(name):
+        return table.get(name.split("::")[-1]) if name else None
+    return resolve
+
+
+def new_methods(facts, file, ty):
+    """names of methods of `ty` in `file` that are not in spec/known_fns.json"""
+    known = set(known_fns().get(file, []))
+    return {fi.name for fi in facts.fns(file) if fi.impl_self == ty and not fi.in_test and ("%s::%s" % (ty, fi.name)) not in known}
